@@ -22,7 +22,9 @@ RULE = ('for each listing (example listings shipped with the repository and synt
         'every line holding a scanner keyword plus every line boundary); Parser(prefix), then parse_from_number(n) for every edition found '
         'and parse_from_index(-1); oracle: only ParserException may be raised, no call may exceed the watchdog, and a successfully parsed '
         'edition equals the same edition of the complete listing except the *_time fields and whole-listing counters; history: the same '
-        'prefixes are re-run after a successful parse of another listing and after a failing parse, outcomes must coincide; non-trivial '
+        'prefixes are re-run after a successful parse of another listing and after a failing parse, outcomes must coincide; threads: every keyword-line prefix of the small and synthetic listings is parsed '
+        'in a worker thread that stays alive, then a second thread parses a small complete listing: neither may hang, the second result is always '
+        'the same; non-trivial '
         '= prefixes that end inside a line (not at a line boundary); distinct outcomes are reported')
 ASSUMPTIONS = ['time fields (a cut inside the digits of "simulation time (s): 12" yields a well-formed 1) and whole-listing counters '
                '(warnings, errors, normal_end, partial, required_batches, t4_file) are excluded from the comparison',
